@@ -309,6 +309,31 @@ def c06(tier, seed, t0):
                          "two-run pairs are a fixed probe set (direct check); the footprint invariant is what extends to arbitrary histories"])
 
 
+@register("C12")
+def c12(tier, seed, t0):
+    from harness import respell as H
+    N = 3 if tier == "quick" else 4
+    res = R.run_pool(H.HNAME, H.chunks(tier, N), 110 if tier == "quick" else 2400, seed, tier,
+                     extra=dict(sample_rate=0.03 if tier == "quick" else 0.01))
+    agg1 = R.merge(res)
+    npipe = 24 if tier == "quick" else 240
+    res2 = R.run_pool(H.HNAME, H.pipeline_chunks(tier, npipe), 90 if tier == "quick" else 1200, seed, tier,
+                      extra=dict(sample_rate=0.1, chunk_time=50 if tier == "quick" else 200))
+    agg2 = R.merge(res2)
+    agg = merge2(agg1, agg2)
+    bounds = dict(token_level=dict(window_chars=N, alphabet="ASCII without '?' and backslash in the base window (so the base has no splice/trigraph)",
+                                   edits=["backslash-newline at every token boundary", "??/-newline at every token boundary",
+                                          "trigraph respelling of every punctuator character { } [ ] # ^ | ~", "digraph respelling of { } [ ] #"],
+                                   skipped="windows whose base lexing raises or carries a lexical diagnostic; windows containing a digraph; "
+                                           "digraph sites where C's own longest match would change the tokens (DESIGN 4.12 scope rule)"),
+                  pipeline_level=dict(programs=npipe, sites="<= 3 occurrences of { } [ ] per file (solver-chosen subset), trigraph or digraph table; "
+                                                          "sites on lines with tabs to their right, strings or chars are not respelled; lines stay <= 80",
+                                      compared="multiset of (code, line)"),
+                  outside="respelling inside literals/comments (C10/C17); windows longer than the bound")
+    return R.report("C12", H.HNAME, tier, seed, agg, t0, bounds, functions=LEX_FUNCS + PIPE_FUNCS,
+                    assumptions=["two real lexer / pipeline runs per path class on the same symbolic characters"])
+
+
 def main():
     ap = argparse.ArgumentParser()
     ap.add_argument("prop")
